@@ -197,6 +197,7 @@ struct RadixEngine : Engine {
 	struct IterCtx { RadixEngine *e; std::vector<char *> got; };
 	static void iter_cb(void *val, void *ctx) {
 		IterCtx *c = (IterCtx *)ctx;
+		if (!val) violation("iteration_order", "iterator equality is inconsistent: a copy compares unequal, or two successive positions compare equal (after %zu values)", c->got.size());
 		c->got.push_back((char *)val);
 		if (c->got.size() > c->e->present.size() + 4) violation("iteration_order", "iteration yielded more than %zu values although only %zu keys are present", c->got.size() - 1, c->e->present.size());
 	}
